@@ -1587,11 +1587,13 @@ impl UndoOperation for RemoveFont {
 pub struct ChangeFontSlot {
     from: usize,
     to: usize,
+    /// the font slot `to` held before the move (put back by undo)
+    replaced_font: Option<BitFont>,
 }
 
 impl ChangeFontSlot {
     pub fn new(from: usize, to: usize) -> Self {
-        Self { from, to }
+        Self { from, to, replaced_font: None }
     }
 }
 
@@ -1604,6 +1606,9 @@ impl UndoOperation for ChangeFontSlot {
         let font = edit_state.buffer.remove_font(self.to);
         if let Some(font) = font {
             edit_state.buffer.set_font(self.from, font);
+            if let Some(replaced_font) = self.replaced_font.take() {
+                edit_state.buffer.set_font(self.to, replaced_font);
+            }
             Ok(())
         } else {
             Err(anyhow::anyhow!("empty font slot."))
@@ -1613,6 +1618,7 @@ impl UndoOperation for ChangeFontSlot {
     fn redo(&mut self, edit_state: &mut EditState) -> EngineResult<()> {
         let font = edit_state.buffer.remove_font(self.from);
         if let Some(font) = font {
+            self.replaced_font = edit_state.buffer.remove_font(self.to);
             edit_state.buffer.set_font(self.to, font);
             Ok(())
         } else {
